@@ -407,7 +407,10 @@ Definition boot (e : bool) (c : cfg) (s : st) : st :=
   let s4 := set_chfl (if c_lateflags c then map (fun _ => 0) (c_relays c) else map r_chfl (c_relays c)) s3 in
   let s5 := set_queue [] (set_conn false (set_reg false (set_gout 0 s4))) in
   let s6 := fold_left (restore_relay e c) (enum 0 (c_relays c)) s5 in
-  set_seqc (seqc s6 + 1) s6.     (* devconn_init arms its watchdog (disarmed again by the offline harness) *)
+  (* devconn_init: last_response = uptime_sec() (a clock reading), then it arms its watchdog (disarmed again by
+     the offline harness) *)
+  let s7 := fst (uptime_usec s6) in
+  set_seqc (seqc s7 + 1) s7.
 
 Definition pad8 (l : list Z) : list Z := firstn 8 (l ++ zeros8).
 Definition init (c : cfg) : st :=
